@@ -9,6 +9,7 @@ use std::sync::{Arc, Mutex};
 use std::time::{Duration, Instant};
 
 use fastrace::collector::{Config, Reporter, SpanContext, SpanId, SpanRecord, TraceId};
+use fastrace::local::LocalCollector;
 use fastrace::prelude::*;
 use serde_json::json;
 
@@ -251,6 +252,62 @@ fn main() {
                 waits.push(t.elapsed().as_millis() as u64);
             }
             extra = json!({"delivery_wait_ms_after_the_overrun": waits});
+        }
+        // C06 / C17: a LocalCollector started before any reporter exists records like any other
+        "early-local-collector" => {
+            let lc = LocalCollector::start();
+            c();
+            {
+                let _a = LocalSpan::enter_with_local_parent("early").with_property(|| ("a", "1"));
+                LocalSpan::add_property(|| ("b", "2"));
+                LocalSpan::add_properties(|| [("c", "3"), ("d", "4")]);
+                LocalSpan::add_event(Event::new("ev").with_property(|| ("ek", "ev")));
+                {
+                    let _n = LocalSpan::enter_with_local_parent("early-nested").with_properties(|| [("n", "1")]);
+                    LocalSpan::add_property(|| ("m", "2"));
+                }
+                c();
+            }
+            let spans = lc.collect();
+            let shape = |recs: &[SpanRecord]| -> Vec<String> {
+                let mut v: Vec<String> = recs
+                    .iter()
+                    .map(|r| {
+                        format!(
+                            "{} props={:?} events={:?}",
+                            r.name,
+                            r.properties.iter().map(|(k, v)| format!("{}={}", k, v)).collect::<Vec<_>>(),
+                            r.events.iter().map(|e| format!("{}{:?}", e.name, e.properties.iter().map(|(k, v)| format!("{}={}", k, v)).collect::<Vec<_>>())).collect::<Vec<_>>()
+                        )
+                    })
+                    .collect();
+                v.sort();
+                v
+            };
+            let want = vec![
+                "early props=[\"a=1\", \"b=2\", \"c=3\", \"d=4\"] events=[\"ev[\\\"ek=ev\\\"]\"]".to_string(),
+                "early-nested props=[\"n=1\", \"m=2\"] events=[]".to_string(),
+            ];
+            let direct = shape(&spans.to_span_records(SpanContext::new(TraceId(0xEA00), SpanId(9))));
+            if direct != want {
+                panic!("to_span_records() of a set collected before the first set_reporter: {:?}, expected {:?}", direct, want);
+            }
+            let rep = Rep::default();
+            fastrace::set_reporter(rep.clone(), Config::default());
+            for k in 0..2u128 {
+                let root = Span::root("late-root", SpanContext::new(TraceId(0xEA01 + k), SpanId(1)));
+                root.push_child_spans(spans.clone());
+                c();
+            }
+            fastrace::flush();
+            for k in 0..2u128 {
+                let recs: Vec<SpanRecord> = rep.0.lock().unwrap().iter().filter(|r| r.trace_id.0 == 0xEA01 + k && r.name != "late-root").cloned().collect();
+                let got = shape(&recs);
+                if got != want {
+                    panic!("copy {} of a set collected before the first set_reporter and pushed afterwards: {:?}, expected {:?}", k, got, want);
+                }
+            }
+            extra = json!({"records_compared": 6});
         }
         // C01 in the shipped feature set: every finished span exactly once, threads exiting at once
         "threads-exactly-once" => {
